@@ -254,8 +254,11 @@ def fold_body(i0, i1, i2, b0, b1, b2, n0, n1, d0, d1, s0, s1, s2, twin):
             args.append(v)
         elif pat[k] == "c":
             args.append(mk_const(mgr, s, v))
+        elif pat[k] == "s":
+            # the same symbol as in the previous position (one value: the previous position's)
+            args.append(args[k - 1])
         else:
-            sym = mk_symbol(mgr, env, s, k if pat[k] == "x" else 0)
+            sym = mk_symbol(mgr, env, s, k)
             args.append(sym)
             interp[sym] = v
     try:
@@ -275,7 +278,11 @@ def fold_body(i0, i1, i2, b0, b1, b2, n0, n1, d0, d1, s0, s1, s2, twin):
         got = refeval.evaluate(g, interp)
     except refeval.DivByZero:
         return True
-    return refeval.veq(got, exp) and type(got) is type(exp) or (not isinstance(exp, (bool, str)) and got == exp and not isinstance(got, bool))
+    if isinstance(exp, bool) or isinstance(got, bool):
+        return isinstance(exp, bool) and isinstance(got, bool) and got == exp
+    if isinstance(exp, str) or isinstance(got, str):
+        return isinstance(exp, str) and isinstance(got, str) and got == exp
+    return got == exp
 
 
 def h_fold(i0: int, i1: int, i2: int, b0: bool, b1: bool, b2: bool, n0: int, n1: int, d0: int, d1: int,
